@@ -1337,6 +1337,7 @@ Lemma set_new_key_not_obj s o q' i : snd (set_new_key s o q') <> RObj i.
 Proof.
   unfold set_new_key. destruct (nth_error (st_objs s) o) as [x|]; [|cbn; discriminate].
   destruct (qname_eqb (oq x) q'); [cbn; discriminate|]. destruct x as [q|v q]; [|cbn; discriminate].
+  destruct (str_eqb (skey s q) (skey s q')); [cbn; discriminate|].
   pose proof (obj_value_not_obj s o) as H.
   destruct (obj_value s o) eqn:E; cbn; try discriminate; try (exfalso; eapply H; reflexivity).
   match goal with |- context [delitem_q ?a ?b] => pose proof (delitem_not_obj a b) as Hd; destruct (delitem_q a b) as [s3 r] end.
@@ -1504,8 +1505,12 @@ Lemma astep_resolve s a1 a2 :
 Proof. intros H. cbn [astep]. unfold with_q. rewrite H. repeat split. Qed.
 
 (* "no namespace" and the default namespace in scope reach the same store entry *)
-Lemma alias_same_entry dns name : etree_key0 dns ([], name) = etree_key0 dns (dns, name).
-Proof. unfold etree_key0. cbn [fst snd null negb andb]. rewrite str_eqb_refl. rewrite andb_false_r. reflexivity. Qed.
+Lemma alias_same_entry dns (st : list (str * str)) name :
+  ahas str_eqb st (clark (dns, name)) = false -> etree_key dns st ([], name) = etree_key dns st (dns, name).
+Proof.
+  intros H. unfold etree_key. cbn [fst snd null negb andb]. rewrite H, str_eqb_refl. cbn [negb orb].
+  rewrite andb_false_r. reflexivity.
+Qed.
 
 (* ------------------------------------------------------------------------------------------ *)
 (* the statements in terms of the decidable well-formedness                                     *)
@@ -1574,37 +1579,59 @@ Qed.
 Definition eq_chk (d2 : dict) (kv : qname * str) : bool :=
   match dget d2 (fst kv) with Some v => str_eqb (snd kv) v | None => false end.
 
-Lemma eq_items_spec s1 s2 l :
-  st_dns s2 = st_dns s1 -> plain (st_dns s1) = true ->
-  Forall (fun k => skey_ok (st_dns s1) k = true) (map fst (st_store s2)) ->
-  (forall k v, In (k, v) l -> aget str_eqb (st_store s1) k = Some v /\ skey_ok (st_dns s1) k = true) ->
-  eq_items s1 s2 (map fst l) = RBool (forallb (eq_chk (abs_store (st_dns s1) (st_store s2))) (abs_store (st_dns s1) l)).
+Lemma abs_get_key dns (st : list (str * str)) k :
+  Forall (fun k => skey_ok dns k = true) (map fst st) -> skey_ok dns k = true ->
+  dget (abs_store dns st) (present dns k) = aget str_eqb st k.
 Proof.
-  intros Hd Hp Hk2. induction l as [|[k v] r IH]; intros Hl; [reflexivity|].
+  intros Hk Hok. unfold dget. rewrite abs_store_mapk.
+  apply (mapk_aget str_eqb qname_eqb (present dns) (fun k => skey_ok dns k = true) str_eqb_eq qname_eqb_eq
+           (present_inj dns)); assumption.
+Qed.
+
+Lemma eq_items_spec s1 s2 l :
+  plain (st_dns s1) = true ->
+  Forall (fun k => skey_ok (st_dns s1) k = true) (map fst (st_store s1)) ->
+  Forall (fun k => skey_ok (st_dns s2) k = true) (map fst (st_store s2)) ->
+  (forall k v, In (k, v) l -> aget str_eqb (st_store s1) k = Some v /\ skey_ok (st_dns s1) k = true) ->
+  eq_items s1 s2 (map fst l) = RBool (forallb (eq_chk (abs_store (st_dns s2) (st_store s2))) (abs_store (st_dns s1) l)).
+Proof.
+  intros Hp Hk1 Hk2. induction l as [|[k v] r IH]; intros Hl; [reflexivity|].
   destruct (Hl k v (or_introl eq_refl)) as [Hv Hok].
+  assert (forall k' v', In (k', v') r -> aget str_eqb (st_store s1) k' = Some v' /\ skey_ok (st_dns s1) k' = true) as Hr
+    by (intros k' v' Hin; apply Hl; right; exact Hin).
   cbn [map fst eq_items abs_store forallb snd]. unfold eq_item, eq_chk at 1. cbn [fst snd].
-  unfold skey at 1. rewrite (etree_key_present _ k Hok), Hv.
-  unfold skey. rewrite Hd.
-  rewrite <- (abs_get (st_dns s1) (st_store s2) (present (st_dns s1) k) Hk2 (plainq_present _ k Hp Hok)).
-  rewrite (norm_present _ k Hok).
-  destruct (dget (abs_store (st_dns s1) (st_store s2)) (present (st_dns s1) k)) as [v2|]; [|reflexivity].
-  destruct (str_eqb v v2); [|reflexivity]. cbn [andb]. apply IH. intros k' v' Hin. apply Hl. right. exact Hin.
+  pose proof (plainq_present _ k Hp Hok) as Hpq.
+  unfold skey at 1. rewrite (etree_key_nc _ _ _ Hk1 Hpq), (etree_key_present _ k Hok), Hv.
+  destruct (existsb (qname_eqb (present (st_dns s1) k)) (map (present (st_dns s2)) (map fst (st_store s2)))) eqn:Ex.
+  - apply existsb_exists in Ex. destruct Ex as [K2 [Hin2 He]]. apply qname_eqb_eq in He. subst K2.
+    apply in_map_iff in Hin2. destruct Hin2 as [k2 [Hpk Hin2]].
+    pose proof Hk2 as Hk2'. rewrite Forall_forall in Hk2'. pose proof (Hk2' k2 Hin2) as Hok2.
+    unfold skey. rewrite (etree_key_nc _ _ _ Hk2 Hpq). rewrite <- Hpk. rewrite (etree_key_present _ k2 Hok2).
+    rewrite (abs_get_key _ _ k2 Hk2 Hok2).
+    destruct (aget str_eqb (st_store s2) k2) as [v2|]; [|reflexivity].
+    destruct (str_eqb v v2); [|reflexivity]. cbn [andb]. apply IH. exact Hr.
+  - assert (dget (abs_store (st_dns s2) (st_store s2)) (present (st_dns s1) k) = None) as Hn.
+    { apply (aget_none_notin qname_eqb qname_eqb_eq). rewrite abs_store_keys. intros Hin.
+      assert (existsb (qname_eqb (present (st_dns s1) k)) (map (present (st_dns s2)) (map fst (st_store s2))) = true) as Ht.
+      { apply existsb_exists. exists (present (st_dns s1) k). split; [exact Hin|apply qname_eqb_refl]. }
+      rewrite Ht in Ex. discriminate. }
+    rewrite Hn. reflexivity.
 Qed.
 
 Lemma attrs_eq_spec s1 s2 :
-  Wf s1 [] -> Wf s2 [] -> st_dns s2 = st_dns s1 ->
+  Wf s1 [] -> Wf s2 [] ->
   attrs_eq s1 s2 = RBool (dict_eqb (abs_store (st_dns s1) (st_store s1)) (abs_store (st_dns s2) (st_store s2))).
 Proof.
-  intros W1 W2 Hd. unfold attrs_eq, dict_eqb. rewrite !abs_store_length.
+  intros W1 W2. unfold attrs_eq, dict_eqb. rewrite !abs_store_length.
   destruct (Nat.eqb (length (st_store s1)) (length (st_store s2))); [|reflexivity]. cbn [andb].
-  assert (forallb decon_ok (map fst (st_store s1)) = true) as H.
-  { apply forallb_forall. intros k Hk. pose proof (wf_keys s1 [] W1) as Hf. rewrite Forall_forall in Hf.
-    apply (skey_ok_decon (st_dns s1)). exact (Hf k Hk). }
-  rewrite H, Hd. apply eq_items_spec; [exact Hd|apply (wf_dns s1 [] W1)| |].
-  - rewrite <- Hd. apply (wf_keys s2 [] W2).
-  - intros k v Hin. split.
-    + apply (in_aget_nodup str_eqb str_eqb_eq _ _ _ (wf_nodup s1 [] W1) Hin).
-    + pose proof (wf_keys s1 [] W1) as Hf. rewrite Forall_forall in Hf. apply Hf. apply (in_map fst) in Hin. exact Hin.
+  assert (forall s, Wf s [] -> forallb decon_ok (map fst (st_store s)) = true) as H.
+  { intros s W. apply forallb_forall. intros k Hk. pose proof (wf_keys s [] W) as Hf. rewrite Forall_forall in Hf.
+    apply (skey_ok_decon (st_dns s)). exact (Hf k Hk). }
+  rewrite (H s1 W1), (H s2 W2). cbn [andb].
+  apply eq_items_spec; [apply (wf_dns s1 [] W1)|apply (wf_keys s1 [] W1)|apply (wf_keys s2 [] W2)|].
+  intros k v Hin. split.
+  - apply (in_aget_nodup str_eqb str_eqb_eq _ _ _ (wf_nodup s1 [] W1) Hin).
+  - pose proof (wf_keys s1 [] W1) as Hf. rewrite Forall_forall in Hf. apply Hf. apply (in_map fst) in Hin. exact Hin.
 Qed.
 
 Lemma dict_eqb_iff d1 d2 :
@@ -1646,12 +1673,12 @@ Proof.
 Qed.
 
 Theorem attrs_eq_dict s1 s2 :
-  sys_wf (s1, []) = true -> sys_wf (s2, []) = true -> st_dns s2 = st_dns s1 ->
+  sys_wf (s1, []) = true -> sys_wf (s2, []) = true ->
   exists b, attrs_eq s1 s2 = RBool b /\
             (b = true <-> dict_equiv (abs_store (st_dns s1) (st_store s1)) (abs_store (st_dns s2) (st_store s2))).
 Proof.
-  intros W1 W2 Hd. apply sys_wf_iff in W1, W2. cbn [fst snd] in W1, W2.
-  eexists. split; [apply (attrs_eq_spec s1 s2 W1 W2 Hd)|].
+  intros W1 W2. apply sys_wf_iff in W1, W2. cbn [fst snd] in W1, W2.
+  eexists. split; [apply (attrs_eq_spec s1 s2 W1 W2)|].
   apply dict_eqb_iff; [apply (abs_nodup s1 [] W1)|apply (abs_nodup s2 [] W2)].
 Qed.
 
